@@ -34,6 +34,26 @@ CLAIMED = {
     note="Trusts the reference model's reading of scope_limit and of which "
          "symbols merge may legitimately unify (same container / same import "
          "/ both unresolved / both intrinsic)."),
+ "C29": dict(
+    engine="E1-fsrace",
+    technique="deterministic simulation: real PSyclone runs as baton-passing "
+              "threads, seeded interleaving at every file-system call on the "
+              "shared kernel directory, crash/torn-write/ENOSPC injection, "
+              "minimised replayable baton order",
+    text="1-3 real PSyclone runs share one kernel-output directory; a seeded "
+         "scheduler decides which run proceeds at every os.open/os.write/"
+         "os.close/open/link/remove on that directory, and kills runs or "
+         "tears writes inside the create..close window (separate sub-batch). "
+         "History oracles: files are never written by two runs, names inside "
+         "each file match the file, each PSy layer uses a file that run "
+         "created with exactly that run's solo-reference content; scheme "
+         "'single': identical kernels share one file and a differing run "
+         "fails. Sampling of interleavings, not proof; for 2 runs x 1 kernel "
+         "the thorough tier in effect covers the order space.",
+    design_ref="DESIGN.md 4.1",
+    note="Runs are threads in one interpreter (process boundary is a stub); "
+         "expected text derived from a solo run by index substitution; only "
+         "psy.gen runs under the scheduler."),
 }
 
 NOT_APPLICABLE = {
@@ -101,6 +121,9 @@ def main():
             "source_commits": [],
             "add_only": True},
         "engines": [
+            {"name": "E1-fsrace", "path": "simkit/fsrace.py, checks/c29.py",
+             "serves_properties": ["C29"],
+             "kind_free_text": "baton-passing real threads + os/io/builtins shims; seeded scheduler and fault injector"},
             {"name": "E2-history", "path": "checks/c14.py, checks/c16.py, checks/c15.py",
              "serves_properties": ["C14", "C16", "C15"],
              "kind_free_text": "seeded operation histories against a reference model; refusals as faults; ddmin"},
